@@ -111,7 +111,7 @@ def extract():
         ("inv_quad:_matmul_broadcast_shape", has("inv_quad", "_matmul_broadcast_shape")),
         ("inv_quad:is_square", has("inv_quad", ".is_square")),
         ("solve:is_square", has("solve", ".is_square")),
-        ("solve:numel", has("solve", "numel")),
+        ("solve:rhs-shape-check", has("solve", "numel") or has("solve", "_matmul_broadcast_shape")),
         ("inv_quad_logdet:is_square", has("inv_quad_logdet", ".is_square")),
         ("add_diagonal:is_square", has("add_diagonal", ".is_square")),
         ("add_diagonal:expand", has("add_diagonal", "expand")),
